@@ -81,6 +81,8 @@ def pp(e, mode="full", ctx=None):
     k = e.k
     if k == "col":
         return e.a[0]
+    if k == "star":
+        return f"{e.a[0]}.*"
     if k == "lit":
         n = e.a[0]
         return str(n)
@@ -170,6 +172,11 @@ def Group(keys, *inner): return Tr("group", keys=[C(k) if isinstance(k, str) els
 def Window(*inner, rows=None, range=None, rolling=None, expanding=False):
     return Tr("window", inner=list(inner), rows=rows, range=range, rolling=rolling, expanding=expanding)
 def Append(right): return Tr("append", right=right)
+
+
+def Star(rel):
+    """`rel.*` inside a select tuple"""
+    return E("star", rel)
 
 
 def _items(cols, named):
@@ -574,11 +581,36 @@ class Ref:
         n = len(rv.rows)
         if k in ("select", "derive"):
             newcols, newcells = [], [[] for _ in range(n)]
+            # `rel.*` in a tuple together with columns of rel: the book does not say whether the star repeats them.
+            # Two readings (Prog.star_mode): "all" - the star is every column of rel (what `*` gives on a relation
+            # whose columns the compiler does not know); "dedup" - a tuple holds each column once, first occurrence
+            # wins (what the compiler does on relations whose columns it knows). checks.c_prog accepts either.
+            dedup = getattr(self.prog, "star_mode", "all") == "dedup"
+            has_star = any(nm is None and e_.k == "star" for nm, e_ in t.items)
+            taken = set()
             for name, e in t.items:
+                if name is None and e.k == "star":
+                    if k != "select":
+                        raise Unsupported("star outside select")
+                    idxs = [j for j, c in enumerate(rv.cols) if c.rel == e.a[0]]
+                    if not idxs:
+                        raise Unsupported(f"generator bug: {e.a[0]}.* matches nothing in {rv.cols}")
+                    for j in idxs:
+                        if dedup and j in taken:
+                            continue
+                        taken.add(j)
+                        newcols.append(Col(rv.cols[j].name, rv.cols[j].rel))
+                        for i in range(n):
+                            newcells[i].append(rv.rows[i].cells[j])
+                    continue
                 if name is None:
                     if e.k != "col":
                         raise Unsupported("unnamed computed column")
-                    src = rv.cols[self.resolve(rv, e.a[0])]
+                    j = self.resolve(rv, e.a[0])
+                    if has_star and dedup and j in taken:
+                        continue
+                    taken.add(j)
+                    src = rv.cols[j]
                     newcols.append(Col(src.name, src.rel))
                 else:
                     newcols.append(Col(name, None))
